@@ -22,10 +22,12 @@ const pkgCapPolicy = "pkg/scheduler/plugins/proportion/capacity_policy"
 var queueLinkFields = map[string]bool{"ParentQueue": true}
 
 func runC08(c *Ctx) {
+	runC08AllNodes(c)
 	borrow(c, "O7", "C13", "O5", "Commit does not call Discard", "undoing already committed allocations fires the deallocate handlers: the queue and its ancestors are under-counted while the pods get bound")
 	borrow(c, "O9", "C13", "O8", "plugin handlers fire after the job and node were updated", "the queue counters are charged with the task's accepted resources, which the node update computes")
 	borrow(c, "O11", "C07", "O7", "createQueueResourceAttrs", "the limit and quota enforced for a resource are the ones configured for that resource")
 	borrow(c, "O12", "C01", "O9", "getPodResourceRequest", "the limit and quota checks and every queue's usage are computed from the pod request: it must be what Kubernetes reserves for the pod (max(containers, init) + overhead)")
+	borrow(c, "O16", "C01", "O11", "no BindRequest reported only when there is none or it failed for good", "a pod whose bind request is hidden from the snapshot (e.g. because it already succeeded while the pod update has not arrived) is a Pending pod on no node: its resources vanish from the running sums of its queue and all ancestors and the limit / quota guards admit other workloads above them")
 	borrow(c, "O8", "C03", "O5", "only active-allocated pods are eviction candidates", "evicting a pod that is already releasing subtracts resources from the queue that were never added")
 
 	p, fx := c.P, c.Fx
@@ -532,4 +534,34 @@ func compositeConsts(p *Prog, v *types.Var) []string {
 		}
 	}
 	return nil
+}
+
+// runC08AllNodes (O15): the running sums of a queue are the sums of the AcceptedResource of its pods, and a pod gets
+// its AcceptedResource when it is added to the NodeInfo of its node. So every node the lister reports (after the
+// node-pool partition filter, which is applied to the list as a whole) must be in the snapshot: an iteration of the
+// node loop that files no NodeInfo (nodes that are not ready, cordoned, ...) makes the pods that still run there count
+// zero, and the limit / quota guards admit workloads beyond the limit.
+func runC08AllNodes(c *Ctx) {
+	f := c.Anchor("O15", "pkg/scheduler/cache/cluster_info", "ClusterInfo", "snapshotNodes")
+	if f == nil {
+		return
+	}
+	n := 0
+	for _, h := range c.P.deepFind(f, func(in ssa.Instruction) bool {
+		mu, ok := in.(*ssa.MapUpdate)
+		return ok && strings.HasSuffix(typeKey(mu.Map.Type()), "node_info.NodeInfo") && strings.HasPrefix(typeKey(mu.Map.Type()), "map[string]")
+	}, 1) {
+		site := h.In
+		if len(h.Chain) > 0 {
+			site = h.Chain[0]
+		}
+		if loopHeaderOf(site.Block()) == nil {
+			continue
+		}
+		n++
+		ok, path := everyIterationPasses(site, func(in ssa.Instruction) bool { return in == site }, nil)
+		c.Check(ok, "O15", "MPT", funcKey(f)+": every listed node gets a NodeInfo in the snapshot", instrPos(site), "no iteration of the node loop skips the filing",
+			"a listed node can be left out of the snapshot ("+pathStr(path)+"): the pods that run on it are added to no node, get no AcceptedResource and count zero in the running sums of their queues, so the limit and quota guards admit workloads beyond them")
+	}
+	c.Floor("O15", "MPT node filings of snapshotNodes", n, 1)
 }
